@@ -76,7 +76,7 @@ func (p *ProjectionPlan) processProjectionBatch(chunk []KVPair, ctx *ExecuteCtx)
 	)
 	for i := 0; i < nFields; i++ {
 		have = false
-		if ctx != nil {
+		if ctx != nil && !p.sharesEarlierName(i) {
 			fname := p.FieldNames[i]
 			cols[i], have = ctx.GetChunkFieldFinalResult(fname)
 		}
@@ -99,6 +99,17 @@ func (p *ProjectionPlan) processProjectionBatch(chunk []KVPair, ctx *ExecuteCtx)
 	return ret, nil
 }
 
+// sharesEarlierName reports whether an earlier select field has the same name
+// as field i: the cached results are kept by name and belong to the first one.
+func (p *ProjectionPlan) sharesEarlierName(i int) bool {
+	for j := 0; j < i && j < len(p.FieldNames); j++ {
+		if p.FieldNames[j] == p.FieldNames[i] {
+			return true
+		}
+	}
+	return false
+}
+
 func (p *ProjectionPlan) processProjection(kvp KVPair, ctx *ExecuteCtx) ([]Column, error) {
 	nFields := len(p.Fields)
 	ret := make([]Column, nFields)
@@ -111,7 +122,7 @@ func (p *ProjectionPlan) processProjection(kvp KVPair, ctx *ExecuteCtx) ([]Colum
 	}
 	for i := 0; i < nFields; i++ {
 		have := false
-		if ctx != nil {
+		if ctx != nil && !p.sharesEarlierName(i) {
 			fname := p.FieldNames[i]
 			result, have = ctx.GetFieldResult(fname)
 		}
